@@ -35,6 +35,11 @@ def check(repo, res, tier):
     res.rule('C03.Q2', 'tasks.finished[t] = True only under <handle>.triggered; is_task_finished(unknown) is false')
     res.rule('C03.Q3', 'cross-machine predecessor list -> allocate_task_to_cluster -> do_work; transfer wait yielded '
                        'before ast is recorded; wait = running max of p.aft + io[p.id]/machine.bandwidth - now')
+    from . import c14
+    from .common import borrow
+    res.rule('C03.Q4', 'adopted C14.G2: the per-edge volumes a task waits for (Task.io) are those of its own in-edges, in a '
+                       'dictionary of its own')
+    borrow(repo, res, tier, c14, {'C14.G2'}, 'C03.Q4')
     res.assumptions += ['exact start equality under concurrency and the one-step visibility of FINISHED are timing facts, not decided',
                         'networkx predecessors() yields exactly the graph predecessors (C14 ties the graph to the workflow)']
     for q in ALGS:
